@@ -1,5 +1,6 @@
 (* The reduction theorem for C12: every execution of the value-carrying lock-IR semantics ([vstep]: one IR step of one
-   thread at a time, any schedule) by threads whose code is a sequence of exclusive critical sections ([msec]) is
+   thread at a time, any schedule) by threads whose code is a sequence of un-nested critical sections, exclusive
+   (Lock) or shared (RLock, read-only) ([msec]), is
    simulated by an execution of the ATOMIC-SECTION semantics ([astep]: whole sections run alone, in one step), and
    whenever nobody holds a lock - in particular at the end - the two configurations coincide: same object states,
    same thread-local states (hence same results), same remaining code.
@@ -7,8 +8,9 @@
    Method: forward simulation with ROLL-BACK abstraction and commit point at Rel. The abstract configuration is the
    concrete one in which every thread that is inside a section is put back to its Acq (local state and code as
    they were, object of its lock as it was); the steps a thread takes inside its section are stutter steps, its
-   Rel is the one atomic step. This is sound because while the thread holds m exclusively nobody else can touch the
-   object of m (mutual exclusion + "accesses to m's fields only inside a section on m"), so the steps it took are
+   Rel is the one atomic step. This is sound because while the thread holds m nobody else can change the object of m
+   (a writer holds m exclusively, which excludes every other holder; accesses to m's fields happen only inside a
+   section on m), so the steps it took are
    exactly a run of the section ALONE from the rolled-back state ([solos]). No fuel / termination assumption is
    needed (rolling back instead of running forward), loops and choices inside sections are allowed. *)
 From Relay Require Import Base.Prelude Model.LockIR Model.Reduction.
@@ -87,10 +89,13 @@ Section Proofs.
 
   (* ------------------------------------------------------------ the section discipline is preserved *)
   Lemma mphase_eqb_eq a b : mphase_eqb a b = true -> a = b.
-  Proof. destruct a, b; cbn; try discriminate; auto. intro H. apply leqb_spec in H. congruence. Qed.
+  Proof.
+    destruct a as [|m md], b as [|m' md']; cbn; try discriminate; auto. intro H.
+    apply andb_prop in H as [H1 H2]. apply leqb_spec in H1. destruct md, md'; try discriminate; congruence.
+  Qed.
 
   Lemma mphase_eqb_refl a : mphase_eqb a a = true.
-  Proof. destruct a; cbn; auto. apply lrefl. Qed.
+  Proof. destruct a as [|m md]; cbn; auto. rewrite lrefl. destruct md; reflexivity. Qed.
 
   Lemma msec_lstep ph (lo : Lo) k (lo' : Lo) k' : lstep (lo, k) (lo', k') -> msec_cont ph k = true -> msec_cont ph k' = true.
   Proof.
@@ -110,26 +115,26 @@ Section Proofs.
     - destruct ph; [reflexivity|discriminate].
   Qed.
 
-  Lemma held_single m' m : held m' [(m, Ex)] = if leqb m' m then Some Ex else None.
+  Lemma held_single m' m md : held m' [(m, md)] = if leqb m' m then Some md else None.
   Proof. reflexivity. Qed.
 
   (* ------------------------------------------------------------ the simulation relation *)
   Definition th_rel (c a : cfg) (i : nat) : Prop :=
     forall ls lo k, nth_error (thrs c) i = Some (ls, lo, k) ->
       (ls = [] /\ msec_cont MOut k = true /\ nth_error (thrs a) i = Some ([], lo, k)) \/
-      (exists m lo0 k0, ls = [(m, Ex)] /\ msec_cont (MIn m) k = true /\
-         nth_error (thrs a) i = Some ([], lo0, Acq m Ex :: k0) /\
+      (exists m md lo0 k0, ls = [(m, md)] /\ msec_cont (MIn m md) k = true /\
+         nth_error (thrs a) i = Some ([], lo0, Acq m md :: k0) /\
          solos m (lo0, k0, objs a m) (lo, k, objs c m)).
 
   Record sim (c a : cfg) : Prop := {
     s_len : length (thrs a) = length (thrs c);
     s_thr : forall i, th_rel c a i;
-    (* an object nobody holds the lock of has its committed value *)
-    s_obj : forall m, (forall i ls lo k, nth_error (thrs c) i = Some (ls, lo, k) -> held m ls = None) ->
+    (* an object nobody holds the lock of exclusively has its committed value *)
+    s_obj : forall m, (forall i ls lo k, nth_error (thrs c) i = Some (ls, lo, k) -> held m ls <> Some Ex) ->
                       objs a m = objs c m;
     s_excl : forall i j li loi ki lj loj kj m, i <> j ->
       nth_error (thrs c) i = Some (li, loi, ki) -> nth_error (thrs c) j = Some (lj, loj, kj) ->
-      held m li <> None -> held m lj = None
+      held m li = Some Ex -> held m lj = None
   }.
 
   (* threads other than the one that moved keep their relation, provided the objects they hold are untouched *)
@@ -141,15 +146,46 @@ Section Proofs.
     th_rel (mkcfg oc' (vupd (thrs c) i t')) a' j.
   Proof.
     intros Hr Hne Ha Hobj ls lo k Hj. cbn [thrs objs] in *. rewrite nth_vupd_other in Hj by assumption.
-    destruct (Hr _ _ _ Hj) as [(E1 & E2 & E3)|(m & lo0 & k0 & E1 & E2 & E3 & E4)].
+    destruct (Hr _ _ _ Hj) as [(E1 & E2 & E3)|(m & md & lo0 & k0 & E1 & E2 & E3 & E4)].
     - left. rewrite Ha. auto.
-    - right. exists m, lo0, k0. rewrite Ha. repeat split; auto.
+    - right. exists m, md, lo0, k0. rewrite Ha. repeat split; auto.
       assert (Hh : held m ls <> None) by (subst ls; rewrite held_single, lrefl; discriminate).
       destruct (Hobj _ _ _ m Hj Hh) as [O1 O2]. rewrite O1, O2. exact E4.
   Qed.
 
   Lemma solos_step m x y z : solos m x y -> solo m y z -> solos m x z.
   Proof. intros; eapply solos_snoc; eauto. Qed.
+
+  (* bookkeeping shared by all the steps that do not change any lockset *)
+  Lemma same_locks_excl (c : cfg) i ls lo k lo' k' :
+    nth_error (thrs c) i = Some (ls, lo, k) ->
+    (forall p q lp lop kp lq loq kq m, p <> q ->
+       nth_error (thrs c) p = Some (lp, lop, kp) -> nth_error (thrs c) q = Some (lq, loq, kq) ->
+       held m lp = Some Ex -> held m lq = None) ->
+    forall p q lp lop kp lq loq kq m, p <> q ->
+       nth_error (vupd (thrs c) i (ls, lo', k')) p = Some (lp, lop, kp) ->
+       nth_error (vupd (thrs c) i (ls, lo', k')) q = Some (lq, loq, kq) ->
+       held m lp = Some Ex -> held m lq = None.
+  Proof.
+    intros Hi Hex p q lp lop kp lq loq kq m Hpq Hp Hq Hh.
+    assert (Gp : exists lo2 k2, nth_error (thrs c) p = Some (lp, lo2, k2)).
+    { destruct (Nat.eq_dec i p) as [<-|Hne]; [rewrite (nth_vupd_same _ _ _ _ Hi) in Hp; inversion Hp; subst; eauto|
+        rewrite nth_vupd_other in Hp by assumption; eauto]. }
+    assert (Gq : exists lo2 k2, nth_error (thrs c) q = Some (lq, lo2, k2)).
+    { destruct (Nat.eq_dec i q) as [<-|Hne]; [rewrite (nth_vupd_same _ _ _ _ Hi) in Hq; inversion Hq; subst; eauto|
+        rewrite nth_vupd_other in Hq by assumption; eauto]. }
+    destruct Gp as (? & ? & Gp). destruct Gq as (? & ? & Gq). eapply (Hex p q); eauto.
+  Qed.
+
+  Lemma same_locks_noex (c : cfg) i ls lo k lo' k' m :
+    nth_error (thrs c) i = Some (ls, lo, k) ->
+    (forall j ls1 lo1 k1, nth_error (vupd (thrs c) i (ls, lo', k')) j = Some (ls1, lo1, k1) -> held m ls1 <> Some Ex) ->
+    forall j ls1 lo1 k1, nth_error (thrs c) j = Some (ls1, lo1, k1) -> held m ls1 <> Some Ex.
+  Proof.
+    intros Hi Hm j ls1 lo1 k1 Hj. destruct (Nat.eq_dec i j) as [<-|Hne].
+    - rewrite Hi in Hj. inversion Hj; subst. apply (Hm i ls1 lo' k'). eapply nth_vupd_same; eauto.
+    - apply (Hm j ls1 lo1 k1). rewrite nth_vupd_other by assumption. exact Hj.
+  Qed.
 
   (* ONE STEP of the fine-grained semantics is a stutter or one step of the atomic-section semantics *)
   Lemma sim_step c a i c' :
@@ -158,7 +194,7 @@ Section Proofs.
     intros [Hlen Hthr Hobj Hex] Hs. destruct Hs as [c i t o' t' Hi Ht].
     destruct Ht as [ls lo k lo' k' Hl|ls lo m k Hf|ls lo m k Hn Hh|ls lo m k|ls lo f k|ls lo f k].
     - (* a step that touches no object *)
-      destruct (Hthr i _ _ _ Hi) as [(E1 & E2 & E3)|(m & lo0 & k0 & E1 & E2 & E3 & E4)].
+      destruct (Hthr i _ _ _ Hi) as [(E1 & E2 & E3)|(m & md & lo0 & k0 & E1 & E2 & E3 & E4)].
       + (* outside a section: the same step in the atomic semantics *)
         subst ls. exists (mkcfg (objs a) (vupd (thrs a) i ([], lo', k'))). split.
         * right. eapply ALocal; eauto.
@@ -168,41 +204,21 @@ Section Proofs.
              ++ intros ls1 lo1 k1 Hj. cbn [thrs objs] in Hj |- *. rewrite (nth_vupd_same _ _ _ _ Hi) in Hj. inversion Hj; subst.
                 left. repeat split; [eapply msec_lstep; eauto|eapply nth_vupd_same; eauto].
              ++ apply (th_rel_frame c a); auto; cbn [thrs objs]; try (apply nth_vupd_other; assumption); auto.
-          -- intros m Hm. apply Hobj. intros j ls1 lo1 k1 Hj.
-             destruct (Nat.eq_dec i j) as [<-|Hne].
-             ++ rewrite Hi in Hj. inversion Hj; subst. reflexivity.
-             ++ apply (Hm j ls1 lo1 k1). rewrite nth_vupd_other by assumption. exact Hj.
-          -- intros p q lp lop kp lq loq kq m Hpq Hp Hq Hh.
-             assert (Gp : exists lo2 k2, nth_error (thrs c) p = Some (lp, lo2, k2)).
-             { destruct (Nat.eq_dec i p) as [<-|Hne]; [rewrite (nth_vupd_same _ _ _ _ Hi) in Hp; inversion Hp; subst; eauto|
-                 rewrite nth_vupd_other in Hp by assumption; eauto]. }
-             assert (Gq : exists lo2 k2, nth_error (thrs c) q = Some (lq, lo2, k2)).
-             { destruct (Nat.eq_dec i q) as [<-|Hne]; [rewrite (nth_vupd_same _ _ _ _ Hi) in Hq; inversion Hq; subst; eauto|
-                 rewrite nth_vupd_other in Hq by assumption; eauto]. }
-             destruct Gp as (? & ? & Gp). destruct Gq as (? & ? & Gq). eapply (Hex p q); eauto.
+          -- intros m Hm. apply Hobj. eapply same_locks_noex; eauto.
+          -- eapply same_locks_excl; eauto.
       + (* inside its section: a stutter; the run-alone of the section grows by this step *)
         subst ls. exists a. split; [left; reflexivity|].
         constructor; cbn [thrs objs].
         * rewrite length_vupd. exact Hlen.
         * intro j. destruct (Nat.eq_dec i j) as [<-|Hne].
           -- intros ls1 lo1 k1 Hj. cbn [thrs objs] in Hj |- *. rewrite (nth_vupd_same _ _ _ _ Hi) in Hj. inversion Hj; subst.
-             right. exists m, lo0, k0. repeat split; auto; [eapply msec_lstep; eauto|].
+             right. exists m, md, lo0, k0. repeat split; auto; [eapply msec_lstep; eauto|].
              eapply solos_step; [exact E4|]. apply SoLocal. exact Hl.
           -- apply (th_rel_frame c a); auto.
-        * intros m' Hm. apply Hobj. intros j ls1 lo1 k1 Hj.
-          destruct (Nat.eq_dec i j) as [<-|Hne].
-          -- rewrite Hi in Hj. inversion Hj; subst. apply (Hm i [(m, Ex)] lo' k'). eapply nth_vupd_same; eauto.
-          -- apply (Hm j ls1 lo1 k1). rewrite nth_vupd_other by assumption. exact Hj.
-        * intros p q lp lop kp lq loq kq m' Hpq Hp Hq Hh.
-          assert (Gp : exists lo2 k2, nth_error (thrs c) p = Some (lp, lo2, k2)).
-          { destruct (Nat.eq_dec i p) as [<-|Hne]; [rewrite (nth_vupd_same _ _ _ _ Hi) in Hp; inversion Hp; subst; eauto|
-              rewrite nth_vupd_other in Hp by assumption; eauto]. }
-          assert (Gq : exists lo2 k2, nth_error (thrs c) q = Some (lq, lo2, k2)).
-          { destruct (Nat.eq_dec i q) as [<-|Hne]; [rewrite (nth_vupd_same _ _ _ _ Hi) in Hq; inversion Hq; subst; eauto|
-              rewrite nth_vupd_other in Hq by assumption; eauto]. }
-          destruct Gp as (? & ? & Gp). destruct Gq as (? & ? & Gq). eapply (Hex p q); eauto.
+        * intros m' Hm. apply Hobj. eapply same_locks_noex; eauto.
+        * eapply same_locks_excl; eauto.
     - (* Acq m Ex: a stutter; the thread is rolled back to this point from now on *)
-      destruct (Hthr i _ _ _ Hi) as [(E1 & E2 & E3)|(m1 & lo0 & k0 & E1 & E2 & E3 & E4)]; [|cbn in E2; discriminate].
+      destruct (Hthr i _ _ _ Hi) as [(E1 & E2 & E3)|(m1 & md1 & lo0 & k0 & E1 & E2 & E3 & E4)]; [|cbn in E2; discriminate].
       subst ls. cbn in E2.
       assert (Hfree : forall j ls1 lo1 k1, nth_error (thrs c) j = Some (ls1, lo1, k1) -> held m ls1 = None).
       { intros j ls1 lo1 k1 Hj. apply (Hf j (erase_t (ls1, lo1, k1))). unfold erase. rewrite nth_error_map, Hj. reflexivity. }
@@ -211,109 +227,124 @@ Section Proofs.
       + rewrite length_vupd. exact Hlen.
       + intro j. destruct (Nat.eq_dec i j) as [<-|Hne].
         * intros ls1 lo1 k1 Hj. cbn [thrs objs] in Hj |- *. rewrite (nth_vupd_same _ _ _ _ Hi) in Hj. inversion Hj; subst.
-          right. exists m, lo1, k1. repeat split; auto.
-          rewrite (Hobj m Hfree). apply solos_refl.
+          right. exists m, Ex, lo1, k1. repeat split; auto.
+          rewrite (Hobj m); [apply solos_refl|]. intros j ls2 lo2 k2 Hj2. rewrite (Hfree _ _ _ _ Hj2). discriminate.
         * apply (th_rel_frame c a); auto.
       + intros m' Hm. apply Hobj. intros j ls1 lo1 k1 Hj.
         destruct (Nat.eq_dec i j) as [<-|Hne].
-        * rewrite Hi in Hj. inversion Hj; subst. reflexivity.
+        * rewrite Hi in Hj. inversion Hj; subst. discriminate.
         * apply (Hm j ls1 lo1 k1). rewrite nth_vupd_other by assumption. exact Hj.
       + intros p q lp lop kp lq loq kq m' Hpq Hp Hq Hh.
         destruct (Nat.eq_dec i p) as [<-|Hnp]; destruct (Nat.eq_dec i q) as [<-|Hnq]; try congruence.
         * rewrite (nth_vupd_same _ _ _ _ Hi) in Hp. inversion Hp; subst.
           rewrite nth_vupd_other in Hq by assumption.
-          rewrite held_single in Hh. destruct (leqb m' m) eqn:E; [|congruence]. apply leqb_spec in E. subst m'.
+          rewrite held_single in Hh. destruct (leqb m' m) eqn:E; [|discriminate]. apply leqb_spec in E. subst m'.
           eapply Hfree; eauto.
         * rewrite (nth_vupd_same _ _ _ _ Hi) in Hq. inversion Hq; subst.
           rewrite nth_vupd_other in Hp by assumption.
           rewrite held_single. destruct (leqb m' m) eqn:E; [|reflexivity]. apply leqb_spec in E. subst m'.
-          exfalso. apply Hh. eapply Hfree; eauto.
+          rewrite (Hfree _ _ _ _ Hp) in Hh. discriminate.
         * rewrite nth_vupd_other in Hp, Hq by assumption. eapply (Hex p q); eauto.
-    - (* Acq m Sh: excluded by the discipline *)
-      destruct (Hthr i _ _ _ Hi) as [(E1 & E2 & E3)|(m1 & lo0 & k0 & E1 & E2 & E3 & E4)]; cbn in E2; discriminate.
+    - (* Acq m Sh: a stutter as well; nobody holds m exclusively, so the object has its committed value *)
+      destruct (Hthr i _ _ _ Hi) as [(E1 & E2 & E3)|(m1 & md1 & lo0 & k0 & E1 & E2 & E3 & E4)]; [|cbn in E2; discriminate].
+      subst ls. cbn in E2.
+      assert (Hnoex : forall j ls1 lo1 k1, nth_error (thrs c) j = Some (ls1, lo1, k1) -> held m ls1 <> Some Ex).
+      { intros j ls1 lo1 k1 Hj. apply (Hn j (erase_t (ls1, lo1, k1))). unfold erase. rewrite nth_error_map, Hj. reflexivity. }
+      exists a. split; [left; reflexivity|].
+      constructor; cbn [thrs objs].
+      + rewrite length_vupd. exact Hlen.
+      + intro j. destruct (Nat.eq_dec i j) as [<-|Hne].
+        * intros ls1 lo1 k1 Hj. cbn [thrs objs] in Hj |- *. rewrite (nth_vupd_same _ _ _ _ Hi) in Hj. inversion Hj; subst.
+          right. exists m, Sh, lo1, k1. repeat split; auto.
+          rewrite (Hobj m Hnoex). apply solos_refl.
+        * apply (th_rel_frame c a); auto.
+      + intros m' Hm. apply Hobj. intros j ls1 lo1 k1 Hj.
+        destruct (Nat.eq_dec i j) as [<-|Hne].
+        * rewrite Hi in Hj. inversion Hj; subst. discriminate.
+        * apply (Hm j ls1 lo1 k1). rewrite nth_vupd_other by assumption. exact Hj.
+      + intros p q lp lop kp lq loq kq m' Hpq Hp Hq Hh'.
+        destruct (Nat.eq_dec i p) as [<-|Hnp]; destruct (Nat.eq_dec i q) as [<-|Hnq]; try congruence.
+        * rewrite (nth_vupd_same _ _ _ _ Hi) in Hp. inversion Hp; subst.
+          rewrite held_single in Hh'. destruct (leqb m' m); discriminate.
+        * rewrite (nth_vupd_same _ _ _ _ Hi) in Hq. inversion Hq; subst.
+          rewrite nth_vupd_other in Hp by assumption.
+          rewrite held_single. destruct (leqb m' m) eqn:E; [|reflexivity]. apply leqb_spec in E. subst m'.
+          exfalso. eapply Hnoex; eauto.
+        * rewrite nth_vupd_other in Hp, Hq by assumption. eapply (Hex p q); eauto.
     - (* Rel m: the commit point - the whole section as ONE atomic step *)
-      destruct (Hthr i _ _ _ Hi) as [(E1 & E2 & E3)|(m1 & lo0 & k0 & E1 & E2 & E3 & E4)]; [cbn in E2; discriminate|].
+      destruct (Hthr i _ _ _ Hi) as [(E1 & E2 & E3)|(m1 & md & lo0 & k0 & E1 & E2 & E3 & E4)]; [cbn in E2; discriminate|].
       subst ls. cbn in E2. destruct (leqb m m1) eqn:Em; [|discriminate]. apply leqb_spec in Em. subst m1.
-      assert (Hd : drop m [(m, Ex)] = []) by (cbn; rewrite lrefl; reflexivity). rewrite Hd.
+      assert (Hd : drop m [(m, md)] = []) by (cbn; rewrite lrefl; reflexivity). rewrite Hd.
       exists (mkcfg (oset (objs a) m (objs c m)) (vupd (thrs a) i ([], lo, k))). split.
       + right. eapply ASection; eauto.
-      + assert (Hoth : forall j ls1 lo1 k1 m', i <> j -> nth_error (thrs c) j = Some (ls1, lo1, k1) ->
-                        held m' ls1 <> None -> m' <> m).
-        { intros j ls1 lo1 k1 m' Hne Hj Hh ->. apply Hh. eapply (Hex i j); eauto. rewrite held_single, lrefl. discriminate. }
+      + (* a thread that holds m' either holds another lock than m, or shares m with us: then the object of m
+           has its committed value already *)
+        assert (Hoth : forall j ls1 lo1 k1 m', i <> j -> nth_error (thrs c) j = Some (ls1, lo1, k1) ->
+                        held m' ls1 <> None -> m' <> m \/ objs a m = objs c m).
+        { intros j ls1 lo1 k1 m' Hne Hj Hh'. destruct (ldec m' m) as [->|Hd']; [|left; exact Hd'].
+          right. apply Hobj. intros p lp lop kp Hp Hpe.
+          destruct (Nat.eq_dec p j) as [->|Hpj].
+          - (* j itself exclusive on m: then we would hold nothing *)
+            rewrite Hj in Hp. inversion Hp; subst.
+            pose proof (Hex j i _ _ _ _ _ _ m (not_eq_sym Hne) Hj Hi Hpe) as Hn. rewrite held_single, lrefl in Hn. discriminate.
+          - pose proof (Hex p j _ _ _ _ _ _ m Hpj Hp Hj Hpe) as Hn. contradiction. }
         constructor; cbn [thrs objs].
         * rewrite !length_vupd. exact Hlen.
         * intro j. destruct (Nat.eq_dec i j) as [<-|Hne].
           -- intros ls1 lo1 k1 Hj. cbn [thrs objs] in Hj |- *. rewrite (nth_vupd_same _ _ _ _ Hi) in Hj. inversion Hj; subst.
              left. repeat split; auto. eapply nth_vupd_same; eauto.
           -- apply (th_rel_frame c a); auto; cbn [thrs objs]; [apply nth_vupd_other; assumption|].
-             intros ls1 lo1 k1 m' Hj Hh. split; [reflexivity|].
-             unfold Reduction.oset. rewrite (lneq _ _ (Hoth _ _ _ _ _ Hne Hj Hh)). reflexivity.
+             intros ls1 lo1 k1 m' Hj Hh'. split; [reflexivity|].
+             unfold Reduction.oset. destruct (leqb m' m) eqn:E; [|reflexivity].
+             apply leqb_spec in E. subst m'.
+             destruct (Hoth _ _ _ _ _ Hne Hj Hh') as [Hc|Hc]; [congruence|symmetry; exact Hc].
         * intros m' Hm. unfold Reduction.oset. destruct (leqb m' m) eqn:E.
           -- apply leqb_spec in E. subst m'. reflexivity.
           -- apply Hobj. intros j ls1 lo1 k1 Hj. destruct (Nat.eq_dec i j) as [<-|Hne].
-             ++ rewrite Hi in Hj. inversion Hj; subst. rewrite held_single, E. reflexivity.
+             ++ rewrite Hi in Hj. inversion Hj; subst. rewrite held_single, E. discriminate.
              ++ apply (Hm j ls1 lo1 k1). rewrite nth_vupd_other by assumption. exact Hj.
-        * intros p q lp lop kp lq loq kq m' Hpq Hp Hq Hh.
+        * intros p q lp lop kp lq loq kq m' Hpq Hp Hq Hh'.
           destruct (Nat.eq_dec i p) as [<-|Hnp]; destruct (Nat.eq_dec i q) as [<-|Hnq]; try congruence.
-          -- rewrite (nth_vupd_same _ _ _ _ Hi) in Hp. inversion Hp; subst. cbn in Hh. congruence.
+          -- rewrite (nth_vupd_same _ _ _ _ Hi) in Hp. inversion Hp; subst. discriminate.
           -- rewrite (nth_vupd_same _ _ _ _ Hi) in Hq. inversion Hq; subst. reflexivity.
           -- rewrite nth_vupd_other in Hp, Hq by assumption. eapply (Hex p q); eauto.
-    - (* Rd f: inside the section on guard f; a stutter *)
-      destruct (Hthr i _ _ _ Hi) as [(E1 & E2 & E3)|(m & lo0 & k0 & E1 & E2 & E3 & E4)]; [cbn in E2; discriminate|].
+    - (* Rd f: inside a section (exclusive or shared) on guard f; a stutter *)
+      destruct (Hthr i _ _ _ Hi) as [(E1 & E2 & E3)|(m & md & lo0 & k0 & E1 & E2 & E3 & E4)]; [cbn in E2; discriminate|].
       subst ls. cbn in E2. destruct (leqb (guard f) m) eqn:Eg; [|discriminate]. apply leqb_spec in Eg.
       exists a. split; [left; reflexivity|].
       constructor; cbn [thrs objs].
       + rewrite length_vupd. exact Hlen.
       + intro j. destruct (Nat.eq_dec i j) as [<-|Hne].
         * intros ls1 lo1 k1 Hj. cbn [thrs objs] in Hj |- *. rewrite (nth_vupd_same _ _ _ _ Hi) in Hj. inversion Hj; subst.
-          right. exists (guard f), lo0, k0. repeat split; auto.
+          right. exists (guard f), md, lo0, k0. repeat split; auto.
           eapply solos_step; [exact E4|]. apply SoRd. reflexivity.
         * apply (th_rel_frame c a); auto.
-      + intros m' Hm. apply Hobj. intros j ls1 lo1 k1 Hj.
-        destruct (Nat.eq_dec i j) as [<-|Hne].
-        * rewrite Hi in Hj. inversion Hj; subst. eapply (Hm i). eapply nth_vupd_same; eauto.
-        * apply (Hm j ls1 lo1 k1). rewrite nth_vupd_other by assumption. exact Hj.
-      + intros p q lp lop kp lq loq kq m' Hpq Hp Hq Hh.
-        assert (Gp : exists lo2 k2, nth_error (thrs c) p = Some (lp, lo2, k2)).
-        { destruct (Nat.eq_dec i p) as [<-|Hne]; [rewrite (nth_vupd_same _ _ _ _ Hi) in Hp; inversion Hp; subst; eauto|
-            rewrite nth_vupd_other in Hp by assumption; eauto]. }
-        assert (Gq : exists lo2 k2, nth_error (thrs c) q = Some (lq, lo2, k2)).
-        { destruct (Nat.eq_dec i q) as [<-|Hne]; [rewrite (nth_vupd_same _ _ _ _ Hi) in Hq; inversion Hq; subst; eauto|
-            rewrite nth_vupd_other in Hq by assumption; eauto]. }
-        destruct Gp as (? & ? & Gp). destruct Gq as (? & ? & Gq). eapply (Hex p q); eauto.
-    - (* Wr f: inside the section on guard f; a stutter - only the holder's own object changes *)
-      destruct (Hthr i _ _ _ Hi) as [(E1 & E2 & E3)|(m & lo0 & k0 & E1 & E2 & E3 & E4)]; [cbn in E2; discriminate|].
-      subst ls. cbn in E2. destruct (leqb (guard f) m) eqn:Eg; [|discriminate]. apply leqb_spec in Eg.
+      + intros m' Hm. apply Hobj. eapply same_locks_noex; eauto.
+      + eapply same_locks_excl; eauto.
+    - (* Wr f: inside an EXCLUSIVE section on guard f; a stutter - only the holder's own object changes *)
+      destruct (Hthr i _ _ _ Hi) as [(E1 & E2 & E3)|(m & md & lo0 & k0 & E1 & E2 & E3 & E4)]; [cbn in E2; discriminate|].
+      subst ls. cbn in E2. destruct md; [discriminate|].
+      destruct (leqb (guard f) m) eqn:Eg; [|discriminate]. apply leqb_spec in Eg.
       assert (Hoth : forall j ls1 lo1 k1 m', i <> j -> nth_error (thrs c) j = Some (ls1, lo1, k1) ->
                       held m' ls1 <> None -> m' <> m).
-      { intros j ls1 lo1 k1 m' Hne Hj Hh ->. apply Hh. eapply (Hex i j); eauto. rewrite held_single, lrefl. discriminate. }
+      { intros j ls1 lo1 k1 m' Hne Hj Hh' ->. apply Hh'. eapply (Hex i j); eauto. rewrite held_single, lrefl. reflexivity. }
       exists a. split; [left; reflexivity|].
       constructor; cbn [thrs objs].
       + rewrite length_vupd. exact Hlen.
       + intro j. destruct (Nat.eq_dec i j) as [<-|Hne].
         * intros ls1 lo1 k1 Hj. cbn [thrs objs] in Hj |- *. rewrite (nth_vupd_same _ _ _ _ Hi) in Hj. inversion Hj; subst.
-          right. exists (guard f), lo0, k0. repeat split; auto.
+          right. exists (guard f), Ex, lo0, k0. repeat split; auto.
           unfold Reduction.oset. rewrite lrefl.
           eapply solos_step; [exact E4|]. apply SoWr. reflexivity.
         * apply (th_rel_frame c a); auto; cbn [thrs objs].
-          intros ls1 lo1 k1 m' Hj Hh. split; [|reflexivity].
-          unfold Reduction.oset. rewrite Eg, (lneq _ _ (Hoth _ _ _ _ _ Hne Hj Hh)). reflexivity.
+          intros ls1 lo1 k1 m' Hj Hh'. split; [|reflexivity].
+          unfold Reduction.oset. rewrite Eg, (lneq _ _ (Hoth _ _ _ _ _ Hne Hj Hh')). reflexivity.
       + intros m' Hm.
         assert (Hm' : m' <> m).
-        { intros ->. specialize (Hm i [(m, Ex)] (fst (wr f lo (objs c (guard f)))) k (nth_vupd_same _ _ _ _ Hi)).
-          rewrite held_single, lrefl in Hm. discriminate. }
-        unfold Reduction.oset. rewrite Eg, (lneq _ _ Hm'). apply Hobj. intros j ls1 lo1 k1 Hj.
-        destruct (Nat.eq_dec i j) as [<-|Hne].
-        * rewrite Hi in Hj. inversion Hj; subst. rewrite held_single, (lneq _ _ Hm'). reflexivity.
-        * apply (Hm j ls1 lo1 k1). rewrite nth_vupd_other by assumption. exact Hj.
-      + intros p q lp lop kp lq loq kq m' Hpq Hp Hq Hh.
-        assert (Gp : exists lo2 k2, nth_error (thrs c) p = Some (lp, lo2, k2)).
-        { destruct (Nat.eq_dec i p) as [<-|Hne]; [rewrite (nth_vupd_same _ _ _ _ Hi) in Hp; inversion Hp; subst; eauto|
-            rewrite nth_vupd_other in Hp by assumption; eauto]. }
-        assert (Gq : exists lo2 k2, nth_error (thrs c) q = Some (lq, lo2, k2)).
-        { destruct (Nat.eq_dec i q) as [<-|Hne]; [rewrite (nth_vupd_same _ _ _ _ Hi) in Hq; inversion Hq; subst; eauto|
-            rewrite nth_vupd_other in Hq by assumption; eauto]. }
-        destruct Gp as (? & ? & Gp). destruct Gq as (? & ? & Gq). eapply (Hex p q); eauto.
+        { intros ->. apply (Hm i [(m, Ex)] (fst (wr f lo (objs c (guard f)))) k (nth_vupd_same _ _ _ _ Hi)).
+          rewrite held_single, lrefl. reflexivity. }
+        unfold Reduction.oset. rewrite Eg, (lneq _ _ Hm'). apply Hobj. eapply same_locks_noex; eauto.
+      + eapply same_locks_excl; eauto.
   Qed.
 
   Lemma sim_init c : red_init leqb guard c -> sim c c.
@@ -323,7 +354,7 @@ Section Proofs.
     - intros i ls lo k Hi. destruct (H _ _ Hi) as (lo1 & k1 & E & Hm). inversion E; subst. left. auto.
     - reflexivity.
     - intros i j li loi ki lj loj kj m _ Hi _ Hh. destruct (H _ _ Hi) as (lo1 & k1 & E & _). inversion E; subst.
-      cbn in Hh. congruence.
+      cbn in Hh. discriminate.
   Qed.
 
   Lemma asteps_trans_step a a1 i a2 : asteps a a1 -> (a2 = a1 \/ astep a1 i a2) -> asteps a a2.
@@ -352,13 +383,13 @@ Section Proofs.
     intros [Hlen Hthr Hobj _] Hq. split.
     - apply nth_error_extensional. intro i. destruct (nth_error (thrs c) i) as [[[ls lo] k]|] eqn:E.
       + pose proof (Hq _ _ E) as Hl. cbn in Hl. subst ls.
-        destruct (Hthr i _ _ _ E) as [(_ & _ & E3)|(m & lo0 & k0 & E1 & _)]; [exact E3|discriminate].
+        destruct (Hthr i _ _ _ E) as [(_ & _ & E3)|(m & md & lo0 & k0 & E1 & _)]; [exact E3|discriminate].
       + apply nth_error_None. rewrite Hlen. apply nth_error_None. exact E.
-    - intro m. apply Hobj. intros i ls lo k Hi. pose proof (Hq _ _ Hi) as Hl. cbn in Hl. subst ls. reflexivity.
+    - intro m. apply Hobj. intros i ls lo k Hi. pose proof (Hq _ _ Hi) as Hl. cbn in Hl. subst ls. discriminate.
   Qed.
 
-  (* THE REDUCTION THEOREM. Threads whose code is a sequence of exclusive critical sections, each touching only its
-     own lock's object; any number of threads, any schedule, any interleaving of their individual IR steps. Every
+  (* THE REDUCTION THEOREM. Threads whose code is a sequence of un-nested critical sections (exclusive, or shared and
+     read-only), each touching only its own lock's object; any number of threads, any schedule, any interleaving of their individual IR steps. Every
      configuration in which nobody holds a lock (in particular: every final configuration) is reached - with the
      same object states, the same thread-local states and the same remaining code - by an execution in which
      every critical section ran alone in one atomic step. *)
@@ -431,10 +462,10 @@ Section Rename.
       apply leqb'_spec in E'. apply fl_inj in E'. apply leqb_spec in E'. congruence.
   Qed.
 
-  Definition mapmph (ph : @mphase L) : @mphase L' := match ph with MOut => MOut | MIn m => MIn (fl m) end.
+  Definition mapmph (ph : @mphase L) : @mphase L' := match ph with MOut => MOut | MIn m md => MIn (fl m) md end.
 
   Lemma mphase_eqb_map a b : mphase_eqb leqb' (mapmph a) (mapmph b) = mphase_eqb leqb a b.
-  Proof. destruct a, b; cbn; try reflexivity. apply leqb_fl'. Qed.
+  Proof. destruct a as [|m md], b as [|m' md']; cbn; try reflexivity. rewrite leqb_fl'. reflexivity. Qed.
 
   Lemma msec_smap s : forall ph,
     msec leqb' guard' (mapmph ph) (smap fl ff s) = option_map (option_map mapmph) (msec leqb guard ph s).
@@ -447,10 +478,10 @@ Section Rename.
       rewrite mphase_eqb_map. destruct (mphase_eqb leqb p1 p2); reflexivity.
     - rewrite IHb. destruct (msec leqb guard ph b) as [[p1|]|]; cbn; auto.
       rewrite mphase_eqb_map. destruct (mphase_eqb leqb p1 ph); reflexivity.
-    - destruct md; [reflexivity|]. destruct ph; reflexivity.
-    - destruct ph as [|m']; cbn; try reflexivity. rewrite leqb_fl'. destruct (leqb m m'); reflexivity.
-    - destruct ph as [|m']; cbn; try reflexivity. rewrite guard_comm, leqb_fl'. destruct (leqb (guard f) m'); reflexivity.
-    - destruct ph as [|m']; cbn; try reflexivity. rewrite guard_comm, leqb_fl'. destruct (leqb (guard f) m'); reflexivity.
+    - destruct ph; reflexivity.
+    - destruct ph as [|m' md']; cbn; try reflexivity. rewrite leqb_fl'. destruct (leqb m m'); reflexivity.
+    - destruct ph as [|m' md']; cbn; try reflexivity. rewrite guard_comm, leqb_fl'. destruct (leqb (guard f) m'); reflexivity.
+    - destruct ph as [|m' [|]]; cbn; try reflexivity. rewrite guard_comm, leqb_fl'. destruct (leqb (guard f) m'); reflexivity.
     - reflexivity.
     - destruct ph; reflexivity.
   Qed.
@@ -458,7 +489,7 @@ Section Rename.
   Lemma msec_fn_smap s : msec_fn leqb' guard' (smap fl ff s) = msec_fn leqb guard s.
   Proof.
     unfold msec_fn. cbn [msec_cont]. change (@MOut L') with (mapmph MOut). rewrite msec_smap.
-    destruct (msec leqb guard MOut s) as [[[|m]|]|]; reflexivity.
+    destruct (msec leqb guard MOut s) as [[[|m md]|]|]; reflexivity.
   Qed.
 End Rename.
 
